@@ -43,7 +43,8 @@ ASSUMPTIONS = [
     'contract: reorder gets complete lists; a pair is listed reversed only when the reversed name is not another connection',
     'contract: rename maps are one-to-one and avoid unrenamed present blocks',
     'the physical signature is read from the ordered lists and the objects\' names only; a state whose physics is right but '
-    'whose C08 invariant (dict/list agreement) is broken is not expanded by C09 and counted under gated_by_C08_invariant',
+    'whose C08 invariant (dict/list agreement) is broken is counted under gated_by_C08_invariant; in the composition part it is '
+    'still expanded and what is found behind it carries |after=<step(clause)>; every rename is also followed by a full reversal',
     'file round trip compares to the digits of the fixed-column fields (10.4e: 1e-4 relative; centre 10.3e: 1e-3 relative; '
     'cosine 10.7f: 1e-7 absolute)',
     'MINC: default block and rock naming; atmos_volume default; the fracture-side distance of the first nested connection '
@@ -427,6 +428,17 @@ def rename_cases(model):
     yield [[bl[i], bl[-1 - i]] for i in range(len(bl)) if bl[i] != bl[-1 - i]]   # all swaps
 
 
+def rename_then_reverse(g, mp, via):
+    """g has just been renamed with mp; now reorder with every connection reversed.  An exception or a changed
+    network is a violation of the composition."""
+    m = model_of(g)
+    after = 't2data.rename_blocks' if via else 'rename_blocks'
+    rev_ok = [i for i, c in enumerate(m.conns) if c[::-1] not in m.cinfo]
+    cn = [list(c[::-1]) if i in rev_ok else list(c) for i, c in enumerate(m.conns)][::-1]
+    viol, gate, g = eval_reorder(g, m.blocks[::-1], cn)
+    return [(sg + '|after=' + after, what) for sg, what in viol]
+
+
 def run_rename(base, tier, rec):
     gname, atm = base
     g0 = base_grid(gname, atm)
@@ -443,6 +455,13 @@ def run_rename(base, tier, rec):
             for sig, what in viol:
                 rec.violation(sig, what, {'part': 'rename', 'base': [gname, atm], 'map': mp, 'via_t2data': via})
             n += 1
+            if not viol:
+                # composed step: every connection listed the other way round, blocks in reverse order
+                v2 = rename_then_reverse(g, mp, via)
+                rec.case(('rename+reverse', gname, atm, mp, via), outcome='violation' if v2 else 'ok')
+                for sig, what in v2:
+                    rec.violation(sig, what, {'part': 'rename+reverse', 'base': [gname, atm], 'map': mp, 'via_t2data': via})
+                n += 1
     rec.count('rename_cases', n)
     rec.sample({'part': 'rename', 'base': [gname, atm], 'cases': n})
 
@@ -451,16 +470,19 @@ def run_rename(base, tier, rec):
 # part: seq (E1)
 # ------------------------------------------------------------------------------------------------
 class SeqState(object):
-    def __init__(self, base, grid, dead=False):
-        self.base, self.grid, self.dead = base, grid, dead
+    """gate: None, or 'site(clause)' of the first step that left the physics right but C08's invariant broken.
+    Such a state IS expanded (a later reorder / rename / file write on it belongs to the composition), and the
+    violations found behind it carry '|after=<gate>' so that they stay apart from first-hand ones."""
+    def __init__(self, base, grid, gate=None):
+        self.base, self.grid, self.gate = base, grid, gate
+
+    dead = property(lambda self: False)
 
     def __deepcopy__(self, memo):
-        return SeqState(self.base, copy.deepcopy(self.grid, memo), self.dead)
+        return SeqState(self.base, copy.deepcopy(self.grid, memo), self.gate)
 
 
 def seq_ops(state, depth):
-    if state.dead:
-        return []
     m = model_of(state.grid)
     bl, cn = list(m.blocks), [list(c) for c in m.conns]
     rev_ok = [i for i, c in enumerate(m.conns) if c[::-1] not in m.cinfo]
@@ -502,15 +524,21 @@ def seq_step(state, op):
     else:
         raise core.HarnessError('unknown op %r' % (op,))
     state.grid = g
-    if gate:
-        state.dead = True
+    if state.gate:
+        viol = [(sg + '|after=' + state.gate, what) for sg, what in viol]
+    elif gate:
+        state.gate = '%s(%s)' % ({'rename': 'rename_blocks', 't2data_rename': 't2data.rename_blocks'}.get(k, k), gate)
+        state.newly_gated = True
     return viol
 
 
 def seq_canon(state):
-    if state.dead:
-        return 'gated-by-C08'
-    return c08.abstract(state.grid)
+    g = state.grid
+    try:
+        private = (sorted(g.block), sorted(g.connection), [sorted(b.connection_name) for b in g.blocklist])
+    except Exception as e:
+        private = repr(e)
+    return (c08.abstract(g), private, state.gate)
 
 
 def run_seq(base, tier, rec):
@@ -520,8 +548,10 @@ def run_seq(base, tier, rec):
 
     def step(s, op):
         v = seq_step(s, op)
-        rec.case(('seq', gname, atm, c08.abstract(s.grid) if not s.dead else None, op), outcome='violation' if v else ('gated' if s.dead else 'ok'))
-        if s.dead:
+        newly = getattr(s, 'newly_gated', False)
+        s.newly_gated = False
+        rec.case(('seq', gname, atm, seq_canon(s), op), outcome='violation' if v else ('gated' if newly else 'ok'))
+        if newly:
             rec.count('gated_by_C08_invariant')
         return v
     t0, s0 = rec.transitions, len(rec.states)
@@ -689,15 +719,32 @@ def subgrid(scale, names=('  p 1', '  q 1'), vols=(40., 24.)):
     return g
 
 
-def eval_embed(g0, hostname, scale):
+def geo_subgrid(atm, atmvol):
+    """Sub-grid built by fromgeo from a small 2x1x2 geometry of the given atmosphere type (its atmosphere blocks
+    are flagged atmosphere=True); atmvol None = the default atmosphere volume.  Blocks renamed 'S...' ."""
+    import mulgrids
+    import t2grids
+    with quiet():
+        geo = mulgrids.mulgrid().rectangular([1., 1.5], [1.], [0.5, 0.5], atmos_type=atm)
+        if atmvol is not None:
+            geo.atmosphere_volume = atmvol
+        g = t2grids.t2grid().fromgeo(geo)
+        g.rename_rocktype('dfalt', 'subrk')
+        g.rename_blocks(dict((b.name, 'S' + b.name[1:]) for b in g.blocklist))
+    return g
+
+
+def eval_embed(g0, hostname, scale, geosub=None):
     import t2grids
     g = copy.deepcopy(g0)
-    sub = subgrid(scale)
+    sub = subgrid(scale) if geosub is None else geo_subgrid(*geosub)
     m0, ms = model_of(g), model_of(sub)
     subvol = sum(ms.binfo[b]['volume'] for b in ms.blocks)
     fits = subvol < m0.binfo[hostname]['volume']
     cls = 'fits' if fits else 'host-too-small'
-    con = t2grids.t2connection([g.block[hostname], sub.block['  p 1']], 2, [0.5, 0.25], 7., 0.)
+    if geosub is not None:
+        cls += ':fromgeo-subgrid-atm%d-%s' % (geosub[0], 'default-volume' if geosub[1] is None else 'small-volume')
+    con = t2grids.t2connection([g.block[hostname], sub.blocklist[-1]], 2, [0.5, 0.25], 7., 0.)
     try:
         with quiet(), core.timelimit(60):
             res = g.embed(sub, con)
@@ -799,6 +846,14 @@ def run_embed(base, tier, rec):
             for sig, what in viol:
                 rec.violation(sig, what, {'part': 'embed', 'base': [gname, atm], 'host': blk.name, 'scale': scale})
             n += 1
+        for atm_sub in (0, 1, 2):
+            for atmvol in (2.0, None):
+                viol = eval_embed(g0, blk.name, 1., (atm_sub, atmvol))
+                rec.case(('embed-geosub', gname, atm, blk.name, atm_sub, atmvol), outcome='violation' if viol else 'ok')
+                for sig, what in viol:
+                    rec.violation(sig, what, {'part': 'embed', 'base': [gname, atm], 'host': blk.name, 'scale': 1.,
+                                              'geosub': [atm_sub, atmvol]})
+                n += 1
         for scale in (1., 1.e-3):
             for variant in ('own-block', 'original-block-object', 'connection-reused'):
                 viol = eval_embed_twice(g0, blk.name, scale, variant)
@@ -869,6 +924,10 @@ def replay(case):
     if part == 'rename':
         gname, atm = case['base']
         return eval_rename(base_grid(gname, atm), case['map'], case['via_t2data'])[0]
+    if part == 'rename+reverse':
+        gname, atm = case['base']
+        viol, gate, g = eval_rename(base_grid(gname, atm), case['map'], case['via_t2data'])
+        return viol or rename_then_reverse(g, case['map'], case['via_t2data'])
     if part == 'minc':
         return eval_minc(minc_grid(case['variant']), case['fractions'], case['planes'], case['spacing'], case['blocks'], case.get('fcd'))
     if part == 'embed2':
@@ -876,5 +935,5 @@ def replay(case):
         return eval_embed_twice(base_grid(gname, atm), case['host'], case['scale'], case['variant']) or []
     if part == 'embed':
         gname, atm = case['base']
-        return eval_embed(base_grid(gname, atm), case['host'], case['scale'])
+        return eval_embed(base_grid(gname, atm), case['host'], case['scale'], tuple(case['geosub']) if case.get('geosub') else None)
     raise core.HarnessError('cannot replay %r' % (case,))
